@@ -925,6 +925,11 @@ impl Mp4TrackWriter {
             ));
         }
 
+        // The sample size table holds 32-bit sizes: a larger sample cannot be described, and
+        // recording its truncated length would make every later sample read from the wrong place.
+        let sample_size = u32::try_from(sample.bytes.len())
+            .map_err(|_| Error::InvalidData("sample size does not fit in 32 bits"))?;
+
         // Do the only fallible step first: when this sample completes the chunk, write the
         // buffered chunk followed by the sample before any table is touched. If the stream
         // fails the call is rejected as a whole: nothing about the sample was recorded, the
@@ -950,7 +955,7 @@ impl Mp4TrackWriter {
         }
         self.chunk_samples += 1;
         self.chunk_duration = self.chunk_duration.saturating_add(sample.duration);
-        self.update_sample_sizes(sample.bytes.len() as u32);
+        self.update_sample_sizes(sample_size);
         self.update_sample_times(sample.duration);
         self.update_rendering_offsets(sample.rendering_offset);
         self.update_sync_samples(sample.is_sync);
